@@ -23,7 +23,7 @@ fn nth_block(i: usize) -> Block {
     Block::from_aligned_address(unsafe { Address::from_usize((i + 1) * Block::BYTES) })
 }
 
-/// BlockQueue: push adds exactly the block, pop returns the most recently pushed held block and removes it, None iff
+/// BlockQueue: push adds exactly the block, pop returns a held block and removes it, None iff
 /// empty, len == number held, iterate yields exactly the held blocks, replace swaps the two queues' contents.
 #[kani::proof]
 #[kani::unwind(6)]
@@ -52,7 +52,10 @@ fn c19_queue_push_pop() {
     let old = q.replace(other);
     assert!(q.len() == 1 && old.len() == 2, "C19.queue.replace_swaps_lengths");
     assert!(q.pop() == Some(b2) && q.pop().is_none(), "C19.queue.replace_installs_the_new_blocks");
-    assert!(old.pop() == Some(b1) && old.pop() == Some(b0) && old.pop().is_none(), "C19.queue.replace_returns_the_old_blocks_each_once");
+    // the old queue hands back exactly its two blocks, each once, in some order
+    let (x, y) = (old.pop(), old.pop());
+    assert!((x == Some(b0) && y == Some(b1)) || (x == Some(b1) && y == Some(b0)), "C19.queue.replace_returns_the_old_blocks_each_once");
+    assert!(old.pop().is_none(), "C19.queue.pop_on_empty_is_none");
     assert!(old.len() == 0 && q.len() == 0, "C19.queue.len_zero_after_popping_everything");
 }
 
@@ -69,9 +72,11 @@ fn c19_queue_capacity() {
     }
     assert!(q.len() == Queue::<Block>::CAPACITY, "C19.queue.len_at_capacity");
     let extra = any_block();
+    kani::assume(extra.start() > nth_block(Queue::<Block>::CAPACITY).start()); // not one of the blocks already held
     assert!(unsafe { q.push_relaxed(extra) } == Err(extra), "C19.queue.push_at_capacity_returns_the_block");
     assert!(q.len() == Queue::<Block>::CAPACITY, "C19.queue.refused_push_changes_nothing");
-    assert!(q.pop() == Some(nth_block(Queue::<Block>::CAPACITY - 1)), "C19.queue.pop_after_refused_push");
+    let popped = q.pop();
+    assert!(popped.is_some() && popped != Some(extra) && q.len() == Queue::<Block>::CAPACITY - 1, "C19.queue.pop_after_refused_push_returns_a_held_block");
 }
 
 /// BlockPool, two workers, three symbolic blocks pushed by workers 0, 1, 0: len counts the held blocks, iterate_blocks
